@@ -47,6 +47,13 @@ theorem bit_ct_spec (bits : ℕ) (a : List ℕ) (i : ℕ) :
   rw [if_neg (by omega), if_pos (by omega)]
   exact ⟨rfl, rfl⟩
 
+/-- `a << b` / `a >> b` with a `Uint` amount `b` (own logic in `src/bits.rs`: width-0 shortcut, "any higher limb
+    set" test, low limb as `usize`) shift by the VALUE of `b`: zero from `BITS` on, in particular for every
+    amount of `2^64` or more. -/
+theorem shift_by_uint_spec (bits a : ℕ) (rhs : List ℕ) (hb : bits < 2 ^ 64) (ha : a < 2 ^ bits) :
+    shlUint bits a rhs = wshl bits a (val rhs) ∧ shrUint bits a rhs = wshr bits a (val rhs) :=
+  shiftUint_eq bits a rhs hb ha
+
 /-- `Integer::is_multiple_of` is divisibility, including the zero divisor (`0 ∣ a ↔ a = 0`). -/
 theorem is_multiple_of_spec (a b : ℕ) : isMultipleOf a b = true ↔ b ∣ a := isMultipleOf_iff a b
 
